@@ -59,4 +59,18 @@ def GoodIt {α : Type} (cmax : CMax) (files : List (CFile α)) (iit rl : Nat) (v
                   ∧ PadZ gx gy gz d.data ki.2)
             ((filesOf files iit).flatMap fun f => sel f v) l
 
+/-- `cmax` is what the reader finds for the files `F` of one iteration (/repo bd9646b: decided per
+iteration): 'in file' for one file, a number for several -/
+def LayoutOK {α : Type} (cmax : CMax) (F : List (CFile α)) : Prop :=
+  match cmax with
+  | .inFile => F.length = 1
+  | .num _ => 2 ≤ F.length
+
+/-- the checkpoint of iteration `iit` is well-formed in WHICHEVER layout it was written (one file; one file
+with `n` components; one file per process, any number of processes) — the layout may differ from
+iteration to iteration -/
+def GoodItAuto {α : Type} (files : List (CFile α)) (iit rl : Nat) (var : List String)
+    (A : String → Arr3 α) (tm : Nat) : Prop :=
+  ∃ cmax, LayoutOK cmax (filesOf files iit) ∧ GoodIt cmax files iit rl var A tm
+
 end AurelVerif.CheckpointSpec
